@@ -84,6 +84,27 @@ def gen_pattern(rnd, entries):
     return pat
 
 
+def climbs(pat):
+    """number of components of the pattern that can match '..' (the model has one directory above the root, holding only the root)"""
+    import fnmatch
+    n = 0
+    for comp in pat.replace("@ROOT@", "").replace("\\/", "/").split("/"):
+        try:
+            if comp and fnmatch.fnmatchcase("..", comp.replace("\\", "")):
+                n += 1
+        except Exception:
+            n += 1
+    return n
+
+
+def gen_pattern_bounded(rnd, entries):
+    for _ in range(20):
+        pat = gen_pattern(rnd, entries)
+        if climbs(pat) <= 1:
+            return pat
+    return "*"
+
+
 def mk(entries, pat):
     es = ",".join("%s:%s" % ("/".join(hx(c) for c in p), t) for p, t in entries)
     return "%s\t%s" % (es, hx(pat))
@@ -104,7 +125,7 @@ class P:
         for _ in range(ntrees):
             entries = gen_tree(rnd)
             for _ in range(12):
-                cases.append(mk(entries, gen_pattern(rnd, entries)))
+                cases.append(mk(entries, gen_pattern_bounded(rnd, entries)))
             cases.append(mk(entries, rnd.choice(["*", "*/", ".*", "*/*", "nomatch*", "[", "a[", "", "*\\"])))
 
         def cmp(c, i, m):
